@@ -81,6 +81,7 @@ class CState:
         self.terminal = None
         self.epoch = 0
         self.occ = {}
+        self.msize = None
 
 
 class OutOfBounds(Exception):
@@ -111,6 +112,14 @@ def run(instrs, n_inputs, oracle, limit=1 << 32, max_len=1 << 16):
         if ln > max_len:
             raise OutOfBounds()
         return bytes(rd(off + i) for i in range(ln))
+
+    st.msize = oracle.const(("MSIZE0",))
+
+    def touch(off, ln):
+        if ln:
+            up = ((off + ln + 31) & (MASK ^ 31)) & MASK
+            if up > st.msize:
+                st.msize = up
 
     def occ(name):
         k = st.occ.get(name, 0)
@@ -252,18 +261,23 @@ def run(instrs, n_inputs, oracle, limit=1 << 32, max_len=1 << 16):
             S.append(oracle.func(name, [pop()]))
         elif name == "GAS":
             S.append(oracle.const(("GAS", occ("GAS"))))
+        elif name == "MSIZE":
+            S.append(st.msize)
         elif name == "MLOAD":
             off = pop()
             chk(off)
+            touch(off, 32)
             S.append(int.from_bytes(bytes(rd(off + i) for i in range(32)), 'big'))
         elif name == "MSTORE":
             off, val = pop(), pop()
             chk(off)
+            touch(off, 32)
             for i, b in enumerate(val.to_bytes(32, 'big')):
                 st.mem[off + i] = b
         elif name == "MSTORE8":
             off, val = pop(), pop()
             chk(off)
+            touch(off, 1)
             st.mem[off] = val & 0xff
         elif name == "SLOAD":
             k = pop()
@@ -273,6 +287,7 @@ def run(instrs, n_inputs, oracle, limit=1 << 32, max_len=1 << 16):
             st.sto[k] = v
         elif name in ("KECCAK256", "SHA3"):
             off, ln = pop(), pop()
+            touch(off, ln)
             S.append(oracle.keccak(rdrange(off, ln)))
         elif name.startswith("LOG") and name[3:].isdigit():
             off, ln = pop(), pop()
